@@ -15,6 +15,7 @@ import (
 	"io"
 	"os"
 	"os/exec"
+	"sort"
 	"strconv"
 	"strings"
 	"sync"
@@ -259,6 +260,14 @@ func child(a lib.Args) {
 		emitCur(i, j)
 		runJob(i, j)
 	}
+	var ts []string
+	for k, d := range kindTime {
+		if d > time.Second {
+			ts = append(ts, fmt.Sprintf("%s=%.0fs", k, d.Seconds()))
+		}
+	}
+	sort.Strings(ts)
+	note("time per kind: " + strings.Join(ts, " "))
 	fmt.Fprintf(out, "DONE\n")
 	out.Flush()
 }
